@@ -66,3 +66,30 @@ theorem convert_canonical_key (null : α) (S T V : Nat) (hS : 0 < S) (hT : 2 ≤
   _root_.convert_canonical_key null S T V hS hT hV val vol vec r hvol hvec hfin
 
 end C01
+
+/-! ### non-vacuity -/
+namespace C01nv
+def getOk {ε β : Type} [Inhabited β] : Except ε β → β | .ok b => b | _ => default
+def val (s t v : Nat) : Option Nat := if (s + t + v) % 3 = 0 then none else some (s % 2 + 10 * t + 100 * (v % 2))
+def vol (t v : Nat) : KeyState Nat := getOk (mergeSliceK 0 ⟨3, 1, 1, 1, true, false, false⟩ ((List.range 3).map fun s => fileKS (val s t v)))
+def vec (v : Nat) : KeyState Nat := getOk (mergeTimeK 0 ⟨4, 3, 1, 1, true, true, false⟩ ⟨3, 3, 1, 1, true, false, false⟩ ((List.range 2).map fun t => vol t v))
+def r : KeyState Nat := getOk (mergeVecK 0 ⟨5, 3, 2, 1, true, true, true⟩ ⟨4, 3, 2, 1, true, true, false⟩ ((List.range 3).map vec))
+
+/-- non-vacuity of `C01.convert_lookup_key`: a 3×2×3 series in which a third of the files lack the
+    key meets every hypothesis (all three levels of merging succeed) -/
+example :
+    (∀ t v, t < 2 → v < 3 →
+      mergeSliceK 0 ⟨3, 1, 1, 1, true, false, false⟩ ((List.range 3).map fun s => fileKS (val s t v)) = .ok (vol t v)) ∧
+    (∀ v, v < 3 →
+      mergeTimeK 0 ⟨4, 3, 1, 1, true, true, false⟩ ⟨3, 3, 1, 1, true, false, false⟩ ((List.range 2).map fun t => vol t v) = .ok (vec v)) ∧
+    mergeVecK 0 ⟨5, 3, 2, 1, true, true, true⟩ ⟨4, 3, 2, 1, true, true, false⟩ ((List.range 3).map vec) = .ok r := by
+  refine ⟨?_, ?_, ?_⟩
+  · intro t v ht hv
+    have h1 : t = 0 ∨ t = 1 := by omega
+    have h2 : v = 0 ∨ v = 1 ∨ v = 2 := by omega
+    rcases h1 with rfl | rfl <;> rcases h2 with rfl | rfl | rfl <;> rfl
+  · intro v hv
+    have h2 : v = 0 ∨ v = 1 ∨ v = 2 := by omega
+    rcases h2 with rfl | rfl | rfl <;> rfl
+  · rfl
+end C01nv
